@@ -1,4 +1,5 @@
 import Bw.Pipeline
+import Bw.Lemmas.NormShape
 /-! # C03 — blocks are exactly the tag pairs written in comments
 
 Pairing (`parse_blocks_from_comments`) against the Dyck grammar, content ranges, ordering. The
@@ -146,6 +147,55 @@ theorem sortBlocks_sorted (bs : List Block) : Sorted (sortBlocks bs) := by
     | nil => intro acc h; simpa
     | cons b bs ih => intro acc h; exact ih _ (insertBlock_sorted b acc h)
   exact this [] trivial
+
+/-! ### line and column of the `<` -/
+
+/-- every normaliser keeps the byte-level line structure of the comment it blanks (same number of bytes
+    on every line): offsets in the comment text are offsets in the source range -/
+theorem normalise_keeps_line_structure (parser kind : String) (c t : Text)
+    (h : Comment.normalise parser kind c = .ok (some t)) : bshape t = bshape c :=
+  Comment.normalise_shape parser kind c t h
+
+/-- **the recorded position of a tag character is its (row, byte column) in the source file**: for a
+    comment built from the node `[|a|, |a| + |raw|)` of `text = a ++ raw ++ b` by any grammar's closure, and
+    a one-byte, non-newline character (`<`, `>`) at byte offset `|pre|` of the comment text -/
+theorem tag_position_is_source_position (parser : String) (a raw b : Text) (kind : String) (c : Comment)
+    (hstep : Pipe.commentStep parser (a ++ raw ++ b) [] ⟨ulen a, ulen a + ulen raw, kind⟩ = .ok [c])
+    (pre rest : Text) (ch : Char) (htag : c.text = pre ++ ch :: rest) (h1 : ch.utf8Size = 1) (hnl : ch ≠ '\n') :
+    sourcePositionAt (ulen pre) c = bytePos (bshape (a ++ raw ++ b)) (ulen a + ulen pre) := by
+  have hslice : sliceBytes (ulen a) (ulen a + ulen raw) (a ++ raw ++ b) = raw := by
+    unfold sliceBytes
+    rw [List.append_assoc, dropBytes_append_ulen]
+    have : ulen a + ulen raw - ulen a = ulen raw := by omega
+    rw [this, takeBytes_append_ulen]
+  unfold Pipe.commentStep at hstep
+  simp only [hslice] at hstep
+  cases hn : Comment.normalise parser kind raw with
+  | error e => rw [hn] at hstep; cases hstep
+  | ok o =>
+    rw [hn] at hstep
+    cases o with
+    | none => simp at hstep
+    | some t =>
+      simp only [List.nil_append, Except.ok.injEq, List.cons.injEq, and_true] at hstep
+      have hshape := Comment.normalise_shape parser kind raw t hn
+      have hct : c.text = t := by rw [← hstep]
+      have hstart : c.posStart = bytePos (bshape (a ++ raw ++ b)) (ulen a) := by
+        rw [← hstep]
+        have := posOf_eq_bytePos a (raw ++ b)
+        rw [← List.append_assoc] at this
+        simp only [this]
+      have hfs : bshape c.text = ((bshape (a ++ raw ++ b)).drop (ulen a)).take (ulen a + ulen raw - ulen a) := by
+        rw [hct, hshape, bshape_append, bshape_append, List.append_assoc, ← bshape_length a, List.drop_left' rfl]
+        have : (bshape a).length + ulen raw - (bshape a).length = (bshape raw).length := by
+          rw [bshape_length raw]; omega
+        rw [this, List.take_left' rfl]
+      have hq : ulen pre ≤ ulen a + ulen raw - ulen a := by
+        have h2 : ulen c.text = ulen raw := by
+          rw [← bshape_length, ← bshape_length, hct, hshape]
+        rw [htag, ulen_append] at h2
+        omega
+      exact sourcePositionAt_is_source_position c _ (ulen a) (ulen a + ulen raw) pre rest ch htag h1 hnl hstart hfs hq
 
 -- non-vacuity: a nested pair of pairs
 example : ∃ (o1 o2 : Open) (c : Comment), Dyck [.start o1, .start o2, .stop c 2 0, .stop c 3 0]
